@@ -8,14 +8,15 @@ CONSTANTS Depth, MaxCalls
 VARIABLE hist
 
 WS == [i \in 1..8 |-> 2]
-H(e, p, k, n, c, r) == [e |-> e, p |-> p, k |-> k, n |-> n, c |-> c, r |-> r, obs |-> last'.obs]
+H(e, p, k, n, c, r) == [e |-> e, p |-> p, k |-> k, f |-> FALSE, n |-> n, c |-> c, r |-> r, obs |-> last'.obs]
 
 RECURSIVE Asc(_)
 Asc(S) == IF S = {} THEN <<>> ELSE LET x == CHOOSE y \in S : \A z \in S : y <= z IN <<x>> \o Asc(S \ {x})
 
 SInit == /\ \E w \in BOOLEAN : InitWith([wac |-> w])
          /\ hist = <<>>
-SNext == \/ \E p \in Peers, k \in Kinds : ncall < MaxCalls /\ Call(p, k, WS) /\ hist' = Append(hist, H("call", p, k, 0, 0, ""))
+SNext == \/ \E p \in Peers, k \in Kinds, f \in BOOLEAN : /\ ncall < MaxCalls /\ Call(p, k, f, WS)
+                                                        /\ hist' = Append(hist, [H("call", p, k, 0, 0, "") EXCEPT !.f = f])
          \/ \E p \in Peers : \E n \in 1..Avail(p) : Deliver(p, n, WS, TRUE) /\ hist' = Append(hist, H("deliver", p, "", n, 0, ""))
          \/ \E c \in 1..ncall : Fire(c, WS, TRUE) /\ hist' = Append(hist, H("fire", 0, "", 0, c, ""))
          \/ \E p \in Peers : ts[p] = "open" /\ UserClose(p) /\ hist' = Append(hist, H("close", p, "", 0, 0, ""))
